@@ -43,8 +43,6 @@ type jcase struct {
 	Outs   []jout       `json:"impl_outs"`
 }
 
-const sigNilLimit = "whole-series-first-last-nil-cursor-panic"
-
 var aggs = []struct {
 	name string
 	coq  string
@@ -297,12 +295,9 @@ func run(w *vh.W, c *jcase) {
 			errs = "panic: " + p
 		}
 		if errs != "" {
+			// (the former finding whole-series-first-last-nil-cursor-panic is repaired: a nil cursor
+			// with a whole-series first/last must give no cursor; a panic here is a violation again)
 			sig := ""
-			if c.Zero && n == 0 && (ag.name == "first" || ag.name == "last") {
-				// shape of the known finding (decided from the inputs only): no shard has data for
-				// the series (nil cursor) and the request is a whole-series first/last
-				sig = sigNilLimit
-			}
 			w.Fail(idx, ag.name+": "+errs, sig)
 		}
 		// the mock must have served exactly the prepared arrays (driver self-check)
